@@ -7,6 +7,7 @@ import Proofs.Lemmas.Intrinsic
 import Proofs.Lemmas.IntrinsicParse
 import Proofs.Lemmas.Functions
 import Proofs.Lemmas.Format
+import Proofs.Lemmas.JsonRoundTrip
 namespace Asl.C13
 open Asl
 
@@ -224,6 +225,30 @@ theorem split_spec (d seps : Str) (hs : seps ≠ []) :
 
 example : splitOn "^]\\".toList "a^b]c\\d".toList = ["a".toList, "b".toList, "c".toList, "d".toList] := by
   decide
+
+/-- `States.StringToJson(States.JsonToString(x)) = x` for every value whose object member
+names are pairwise distinct at every level (`Json.wf`; true of everything `json.loads`
+returns).  Strings and names may contain any characters: quotes, backslashes, control
+characters, non-ASCII and astral code points all survive the `\uXXXX` escapes. -/
+theorem json_roundtrip (o : Oracles) (x : Json) (h : x.wf = true) :
+    applyFn o "States.JsonToString".toList [x] = .ok (.str (render x)) ∧
+    applyFn o "States.StringToJson".toList [.str (render x)] = .ok x := by
+  refine ⟨by simp [applyFn, fnJsonToString], ?_⟩
+  simp [applyFn, fnStringToJson, leadingZero_render x, parseJson_render x h]
+
+/-- the same as a nested call in a template -/
+theorem json_roundtrip_call (o : Oracles) (input ctx : Json) (a : Arg) (x : Json)
+    (ha : evalArg o input ctx a = .ok x) (h : x.wf = true) :
+    evalArg o input ctx
+      (.call "States.StringToJson".toList [.call "States.JsonToString".toList [a]]) = .ok x := by
+  have ⟨h1, h2⟩ := json_roundtrip o x h
+  simp only [evalArg, evalArgs, ha, h1, h2]
+
+/-- without distinct names the result is the value with repeated names merged as a Python
+`dict` does (last value, first position) -/
+theorem json_roundtrip_dedup (o : Oracles) (x : Json) :
+    applyFn o "States.StringToJson".toList [.str (render x)] = .ok (normalise x) := by
+  simp [applyFn, fnStringToJson, leadingZero_render x, parseJson_render_any x]
 
 /-! ## clean failure -/
 
